@@ -331,7 +331,7 @@ def run(tier):
     rep.bounds = dict(scripts=list(SCRIPTS), budgets=dict(fills=2 if tier == "thorough" else 1, lapses=1, duplicates=1, crash=1), fault_deviation_bound=1, jobs=len(jobs))
     rep.evaluations = sum(rep.clauses.values())
     rep.nontrivial = len(rep.outcomes)
-    rep.rule = "depth-first exploration (canonical-state dedup, worlds rebuilt per path) of every interleaving of {next strategy request, request send, response apply, snapshot delivery (FIFO), duplicate of the last snapshot, exchange fill half/all, exchange lapse, async acceptance, crash+restart with image executable-only / all} for 8 scripts; faults: one call answered TIMEOUT (applied / not applied) or FAILURE; oracle at every quiescent state after the stream's periodic empty snapshot"
+    rep.rule = "depth-first exploration (canonical-state dedup, worlds rebuilt per path) of every interleaving of {next strategy request, request send, response apply, snapshot delivery (FIFO), duplicate of the last snapshot, exchange fill half/all, exchange lapse, async acceptance, crash+restart with image executable-only / all} for the scripts listed in bounds; faults: one call answered TIMEOUT (applied / not applied) or FAILURE; oracle at every quiescent state after the stream's periodic empty snapshot"
     rep.assumptions = [
         "exchange double implements the documented placeOrders/cancelOrders/updateOrders/replaceOrders semantics (Appendix B); a request is applied at the exchange when it is sent and answered later",
         "snapshots are full images of the market from a real betfairlightweight OrderBookCache, delivered FIFO (a TCP stream does not reorder), possibly repeated",
